@@ -14,7 +14,7 @@ package searcher
 // a child and its current match: the child's cursor is exactly there; nil once the child is
 // exhausted (after initialisation); no child, no match
 //@ spec boolSlot(child search.Searcher, cur *search.DocumentMatch, inited bool) bool = implies(child == nil, cur == nil) && \
-//@     implies(child != nil && cur != nil, child.started && !child.done && child.last == dmKey(cur) && len(cur.IndexInternalID) > 0) && implies(child != nil && cur == nil && inited, child.done) && \
+//@     implies(child != nil && cur != nil, child.started && !child.done && child.last == dmKey(cur) && len(cur.IndexInternalID) > 0 && mset(child, dmKey(cur))) && implies(child != nil && cur == nil && inited, child.done) && \
 //@     implies(child != nil && !inited, cur == nil && !child.started && !child.done)
 // the three children are different objects (and not the searcher itself), their matches too
 //@ spec boolApart(s *BooleanSearcher) bool = implies(s.mustSearcher != nil, s.mustSearcher != s && s.mustSearcher != s.shouldSearcher && s.mustSearcher != s.mustNotSearcher) && \
@@ -29,10 +29,29 @@ package searcher
 //@ spec boolAhead(s *BooleanSearcher) bool = implies(s.started && s.currentID != nil, idKey(s.currentID) > s.last)
 //@ spec boolSlots(s *BooleanSearcher) bool = boolSlot(s.mustSearcher, s.currMust, s.initialized) && boolSlot(s.shouldSearcher, s.currShould, s.initialized) && boolSlot(s.mustNotSearcher, s.currMustNot, s.initialized)
 //@ spec boolInv(s *BooleanSearcher) bool = boolSlots(s) && boolApart(s) && implies(!s.initialized, !s.started) && implies(s.initialized, boolCurrent(s) && boolAhead(s))
+//@ spec boolInvSet(s *BooleanSearcher) bool = implies(s.initialized && !s.done, boolSet(s))
 // the scratch array handed to the scorer has two slots and is not the pool's free list
 //@ spec boolScratch(ctx *search.SearchContext, s *BooleanSearcher) bool = ctx != nil && ctx.DocumentMatchPool != nil && s.scorer != nil && len(s.matches) == 2 && base(s.matches) != base(ctx.DocumentMatchPool.avail)
 // the cursor of the driving child
 //@ spec boolDrivingLast(s *BooleanSearcher) string = ite(s.mustSearcher != nil, s.mustSearcher.last, s.shouldSearcher.last)
+
+// ---- set level (C02): which candidates a boolean searcher accepts ----
+// the driving child is the must child if there is one, otherwise the should child; a candidate is
+// accepted iff the driving child matches it, the must-not child (if any) does not, and - when there
+// is both a must and a should child - the should child matches it or requires nothing (Min() == 0)
+//@ spec boolDriving(s *BooleanSearcher) search.Searcher = ite(s.mustSearcher != nil, s.mustSearcher, s.shouldSearcher)
+//@ spec boolAccepts(s *BooleanSearcher, x string) bool = boolDriving(s) != nil && mset(boolDriving(s), x) && !(s.mustNotSearcher != nil && mset(s.mustNotSearcher, x)) && \
+//@     (s.mustSearcher == nil || s.shouldSearcher == nil || s.shouldSearcher.Min() == 0 || mset(s.shouldSearcher, x))
+// lb: a lower bound set by Advance for the duration of its call
+//@ ghostfield BooleanSearcher.lbset bool
+//@ ghostfield BooleanSearcher.lb string
+//@ spec boolTodo(s *BooleanSearcher, x string) bool = unconsumed(s.started, s.last, x) && implies(s.lbset, x >= s.lb)
+// every accepted id that is still to be delivered lies at or after the candidate; the must-not and
+// should children have not passed anything at or after the candidate
+//@ spec boolSetD(s *BooleanSearcher) bool = all(x, string, implies(boolAccepts(s, x) && boolTodo(s, x), s.currentID != nil && x >= idKey(s.currentID)))
+//@ spec boolSetN(s *BooleanSearcher) bool = implies(s.mustNotSearcher != nil && s.currentID != nil, all(x, string, implies(mset(s.mustNotSearcher, x) && x >= idKey(s.currentID), s.currMustNot != nil && x >= dmKey(s.currMustNot))))
+//@ spec boolSetS(s *BooleanSearcher) bool = implies(s.mustSearcher != nil && s.shouldSearcher != nil && s.currentID != nil, all(x, string, implies(mset(s.shouldSearcher, x) && x >= idKey(s.currentID), s.currShould != nil && x >= dmKey(s.currShould))))
+//@ spec boolSet(s *BooleanSearcher) bool = boolSetD(s) && boolSetN(s) && boolSetS(s)
 
 //@ func BooleanSearcher.initSearchers
 //@   props C08 C02
@@ -41,6 +60,7 @@ package searcher
 //@   modifies fields(BooleanSearcher), fields(search.DocumentMatch), search.DocumentMatchPool.avail, mem(*search.DocumentMatch), search.Searcher.started, search.Searcher.last, search.Searcher.done
 //@   ensures implies(result == nil, s.initialized && boolInv(s)) && s.mustSearcher == old(s.mustSearcher) && s.shouldSearcher == old(s.shouldSearcher) && s.mustNotSearcher == old(s.mustNotSearcher) && s.done == old(s.done) && s.scorer == old(s.scorer) && s.matches == old(s.matches)
 //@   ensures s.started == old(s.started) && s.last == old(s.last) && (base(ctx.DocumentMatchPool.avail) == old(base(ctx.DocumentMatchPool.avail)) || fresh(ctx.DocumentMatchPool.avail))
+//@   ensures implies(result == nil, boolSet(s))
 
 // advanceNextMust: the driving child moves to its next match (its current match goes back to the
 // pool unless it is the one being returned), and the candidate follows it
@@ -53,6 +73,9 @@ package searcher
 //@   ensures implies(result == nil, boolSlots(s) && boolApart(s) && boolCurrent(s) && implies(s.currentID != nil, idKey(s.currentID) > old(idKey(s.currentID))))
 //@   ensures s.currMustNot == old(s.currMustNot) && implies(s.mustSearcher != nil, s.currShould == old(s.currShould)) && s.started == old(s.started) && s.last == old(s.last)
 //@   ensures implies(skipReturn != nil, skipReturn.IndexInternalID == old(skipReturn.IndexInternalID) && dmKey(skipReturn) == old(dmKey(skipReturn)))
+// set level: the matches of the other children keep their ids; whatever the driving child matches beyond the old candidate lies at or after the new one
+//@   ensures implies(result == nil && s.currMustNot != nil, dmKey(s.currMustNot) == old(dmKey(s.currMustNot))) && implies(result == nil && s.mustSearcher != nil && s.currShould != nil, dmKey(s.currShould) == old(dmKey(s.currShould)))
+//@   ensures implies(result == nil, all(x, string, implies(mset(boolDriving(s), x) && x > old(idKey(s.currentID)), s.currentID != nil && x >= idKey(s.currentID))))
 //@   ensures base(ctx.DocumentMatchPool.avail) == old(base(ctx.DocumentMatchPool.avail)) || fresh(ctx.DocumentMatchPool.avail)
 
 // Next: the candidate (the driving child's match) is checked against the must-not and should
@@ -60,11 +83,16 @@ package searcher
 //@ func BooleanSearcher.Next
 //@   props C08 C02
 //@   mode int
-//@   requires s != nil && boolScratch(ctx, s) && boolInv(s)
-//@   modifies fields(BooleanSearcher), s.matches[*], fields(search.DocumentMatch), search.DocumentMatchPool.avail, mem(*search.DocumentMatch), search.Searcher.started, search.Searcher.last, search.Searcher.done
+//@   requires s != nil && boolScratch(ctx, s) && boolInv(s) && boolInvSet(s) && implies(!s.initialized, !s.lbset)
+//@   modifies s.lbset, fields(BooleanSearcher), s.matches[*], fields(search.DocumentMatch), search.DocumentMatchPool.avail, mem(*search.DocumentMatch), search.Searcher.started, search.Searcher.last, search.Searcher.done
 //@   at return: ghost s.started = s.started || (result1 == nil && result0 != nil)
 //@   at return: ghost s.last = ite(result1 == nil && result0 != nil, dmKey(result0), s.last)
+//@   at return: ghost s.lbset = false
 //@   ensures implies(result1 == nil, boolInv(s) && boolScratch(ctx, s))
+//@   ensures implies(result1 == nil, boolInvSet(s)) && !s.lbset
+// set level: the result is accepted and nothing accepted that is still to be delivered lies before it; nil: nothing accepted is left
+//@   ensures implies(result1 == nil && result0 != nil, boolAccepts(s, dmKey(result0)) && all(x, string, implies(boolAccepts(s, x) && unconsumed(old(s.started), old(s.last), x) && implies(old(s.lbset), x >= old(s.lb)), x >= dmKey(result0))))
+//@   ensures implies(result1 == nil && result0 == nil && !old(s.done), all(x, string, !(boolAccepts(s, x) && unconsumed(old(s.started), old(s.last), x) && implies(old(s.lbset), x >= old(s.lb)))))
 //@   ensures s.mustSearcher == old(s.mustSearcher) && s.shouldSearcher == old(s.shouldSearcher) && s.mustNotSearcher == old(s.mustNotSearcher) && s.scorer == old(s.scorer) && s.matches == old(s.matches)
 // ids strictly ascending; never before the candidate at entry
 //@   ensures implies(result1 == nil && result0 != nil, ascending(old(s.started), old(s.last), result0) && s.started && s.last == dmKey(result0) && implies(old(s.initialized) && old(s.currentID) != nil, dmKey(result0) >= old(idKey(s.currentID))))
@@ -74,16 +102,24 @@ package searcher
 //@   loop 0: invariant s.mustSearcher == old(s.mustSearcher) && s.shouldSearcher == old(s.shouldSearcher) && s.mustNotSearcher == old(s.mustNotSearcher) && s.scorer == old(s.scorer) && s.matches == old(s.matches) && s.started == old(s.started) && s.last == old(s.last)
 //@   loop 0: invariant implies(old(s.initialized) && old(s.currentID) != nil && s.currentID != nil, idKey(s.currentID) >= old(idKey(s.currentID)))
 //@   loop 0: invariant implies(old(s.initialized) && old(s.currentID) == nil, s.currentID == nil)
+//@   loop 0: invariant boolSet(s) && s.lbset == old(s.lbset) && s.lb == old(s.lb)
 
 // Advance: the children behind the target are advanced to it, then Next finds the next accepted candidate
 //@ func BooleanSearcher.Advance
 //@   props C08 C02
 //@   mode int
-//@   requires s != nil && boolScratch(ctx, s) && boolInv(s) && unconsumed(s.started, s.last, idKey(ID))
-//@   modifies fields(BooleanSearcher), s.matches[*], fields(search.DocumentMatch), search.DocumentMatchPool.avail, mem(*search.DocumentMatch), search.Searcher.started, search.Searcher.last, search.Searcher.done
+//@   requires s != nil && boolScratch(ctx, s) && boolInv(s) && boolInvSet(s) && unconsumed(s.started, s.last, idKey(ID)) && !s.lbset
+//@   at entry: ghost s.lbset = true
+//@   at entry: ghost s.lb = idKey(ID)
+//@   modifies s.lbset, s.lb, fields(BooleanSearcher), s.matches[*], fields(search.DocumentMatch), search.DocumentMatchPool.avail, mem(*search.DocumentMatch), search.Searcher.started, search.Searcher.last, search.Searcher.done
 //@   at call s.Next#0: assert implies(s.currentID != nil, idKey(s.currentID) >= idKey(ID))
+//@   at call s.Next#0: assert boolInvSet(s)
 //@   at return: ghost s.started = s.started || (result1 == nil && result0 != nil)
 //@   at return: ghost s.last = ite(result1 == nil && result0 != nil, dmKey(result0), s.last)
 //@   ensures implies(result1 == nil, boolInv(s) && boolScratch(ctx, s))
+//@   ensures implies(result1 == nil, boolInvSet(s))
+// set level: the first accepted id at or after the target; nil: there is none
+//@   ensures implies(result1 == nil && result0 != nil, boolAccepts(s, dmKey(result0)) && all(x, string, implies(boolAccepts(s, x) && x >= idKey(ID), x >= dmKey(result0))))
+//@   ensures implies(result1 == nil && result0 == nil && !old(s.done), all(x, string, implies(boolAccepts(s, x), x < idKey(ID))))
 // lands at or after the target, still ascending
 //@   ensures implies(result1 == nil && result0 != nil, dmKey(result0) >= idKey(ID) && ascending(old(s.started), old(s.last), result0) && s.started && s.last == dmKey(result0))
